@@ -141,6 +141,7 @@ def judge_build(res, tmod, traces_spec, k, stratum, wit, co=None):
     _judge_text(res, tmod, text, handed, k, stratum, wit)
 
 
+_ANN_COUNT = [0]
 _HINTS = {}  # id(handed) -> [(hint, type)] as the documented naming scheme sees the positions of one module
 
 
@@ -160,6 +161,14 @@ def _traces_of(tmod, traces_spec):
         rt_ = gt.ev(ret) if ret else None
         yt_ = gt.ev(yld) if yld else None
         traces.append(CallTrace(f, at, rt_, yt_))
+        # source annotations reach the renderer too (the default strategy replicates them): set on the live function for this build
+        ann = {n: gt.ev(e) for n, e in (item[4] if len(item) > 4 and item[4] else {}).items()}
+        getattr(f, "__func__", f).__annotations__ = dict(ann)
+        if ann:
+            _ANN_COUNT[0] += len(ann)
+            at = dict(at, **{n: t for n, t in ann.items() if n != "return"})
+            if "return" in ann and yt_ is None:
+                rt_ = ann["return"]
         if yt_ is not None:
             import typing as _t
             none_ret = rt_ is None or rt_ is type(None)
@@ -245,6 +254,12 @@ TD_WRAPS = ["{t}", "List[{t}]", "Dict[str, {t}]", "Tuple[{t}, int]", "Optional[{
             "Dict[str, Tuple[{t}, List[{u}]]]", "Tuple[List[{t}], Tuple[int, {u}]]"]
 
 
+# annotations that only a source file can contribute (inference never produces them) and that the renderer must still spell faithfully
+ANN_POOL = ["Callable[[], int]", "Callable[[int, uB], Own]", "Callable[..., Any]", "Optional[Callable[[], NoneType]]", "List[Callable[[int], str]]",
+            "Dict[str, Callable[[], uU]]", "Callable[[Callable[[], int]], puP]", "Type[Own]", "Tuple[Callable[[], int], ...]", "Callable[[], OInner]",
+            "Union[Callable[[fFoo], bfQux], int]"]
+
+
 def gen_td_expr(rng, fresh, fields, depth=0):
     n = rng.choice([1, 2, 3])
     items = []
@@ -286,6 +301,11 @@ def gen_build(rng, force=None):
             spec.append(("Kls.m", {"a": gen_sig_type(rng, stratum, False), "b": gen_sig_type(rng, stratum, False)}, None, None))
         if rng.random() < 0.4:
             spec.append(("g0", {"a": gen_sig_type(rng, stratum, False)}, rng.choice([None, "int"]), gen_sig_type(rng, stratum, False)))
+        if stratum == "main":
+            for j, item in enumerate(spec):
+                if item[3] is None and rng.random() < 0.3:
+                    names = [n for n in ("a", "b", "c", "return") if rng.random() < 0.5 and (n != "c" or item[0].startswith("f"))] or ["a"]
+                    spec[j] = item + ({n: rng.choice(ANN_POOL) for n in names},)
     else:
         k = 10
         fields = "user" if stratum == "tdbody" else "builtin"
@@ -310,7 +330,7 @@ def gen_build(rng, force=None):
             spec.append(("Kls.Nest.nm", {"a": rng.choice(TD_WRAPS[:4]).format(t=gen_td_expr(rng, fresh, "user" if stratum == "tdbody" else fields), u="int")}, None, None))
         if rng.random() < 0.6:
             spec.append(("g0", {"a": "int"}, rng.choice([None, "int", "NoneType"]), rng.choice(TD_WRAPS[:6]).format(t=gen_td_expr(rng, fresh, fields), u="int")))
-    return stratum, k, [s for s in spec if s[1] or s[2] or s[3]]
+    return stratum, k, [s for s in spec if s[1] or s[2] or s[3] or (len(s) > 4 and s[4])]
 
 
 def work(p):
@@ -344,6 +364,8 @@ def work(p):
                     co=(tmod_b, [tuple(x) for x in pin["co"]]) if pin.get("co") else None)
         res.count("pinned_witnesses")
     sys.path.remove(d)
+    res.count("source_annotations_handed_to_renderer", _ANN_COUNT[0])
+    _ANN_COUNT[0] = 0
     return res.out()
 
 
@@ -369,6 +391,8 @@ def run(ck):
         ck.merge(r)
     ck.need("annotations_judged", 5000)
     ck.need("two_module_builds", 100)
+    ck.need("source_annotations_handed_to_renderer", 300)
+    ck.need("typeddict_builds_naming_checked", 500)
     ck.need("module_pairs", 15, "module pairs never co-occurring in one stub")
     ck.need("container_with_typeddict", 5, "container kind x contains-TypedDict cell never rendered")
     return ck.finish(
